@@ -298,6 +298,10 @@ def _layout(repo, col, R="R-C01-layout"):
             x = strip(x)
             if x.op == "sub" and is_none_colon(x.args[1], True):
                 x = strip(x.args[0])
+            elif x.op == "mcall" and x.name == "expand_dims" and len(x.args) >= 2:   # X[None, :] in its normal form
+                ax = x.args[2] if len(x.args) > 2 else x.kw.get("axis")
+                if ax is not None and ax.op == "const" and ax.name == 0:
+                    x = strip(x.args[1])
             return x.op == "mcall" and x.name == "arange" and len(x.args) == 2 and is_n0(x.args[1])
 
         def is_start_param(x):
